@@ -562,6 +562,29 @@ func (k *c04K) trim() {
 			k.c.Nontrivial("trim|" + in.String() + "|" + fmt.Sprint(k.cs.X, k.cs.Flag))
 		}
 	}
+	// the same trimming on an alignment whose rows came from another one (Append hands rows over): every row is
+	// trimmed, and the alignment the rows came from reads as before
+	other := make(rows, len(in))
+	for i, r := range in {
+		other[i] = row{Name: "o" + r.Name, Seq: r.Seq}
+	}
+	dst, src := k.build(in), k.build(other)
+	if dst == nil || src == nil {
+		return
+	}
+	var e1, e2 error
+	if !k.call(op, "", func() { e1 = dst.Append(src); e2 = dst.TrimSequences(k.cs.X, k.cs.Flag) }) {
+		return
+	}
+	if e1 != nil || e2 != nil {
+		k.viol(op, "after-append/unexpected-error", fmt.Sprint(e1, e2))
+		return
+	}
+	both := append(in.clone(), other...)
+	if !k.same(op+"-after-Append", dst, c04Pick(both, want)) {
+		return
+	}
+	k.same(op+"-after-Append/source-of-the-rows", src, other)
 }
 
 // ---- reference coordinates
